@@ -271,6 +271,10 @@ def run_property(prop, tier, seed, replay=None):
         ncorpus = len(cases)
     else:
         cases.extend(prop.cases(rng, tier))
+        from . import common
+        shared = list(common.cases_for(prop, seed, tier, Case))
+        cov["shared_pool_cases"] = len(shared)
+        cases.extend(shared)
     stats = run_cases(prop, cases, findings)
     disagreements, failures, known_hits = stats["disagreements"], stats["failures"], stats["known_hits"]
 
@@ -390,7 +394,7 @@ def run_cases(prop, cases, findings, batch=20000):
         # spec requests (Lean predicates evaluated on the implementation's output)
         spec_lines, owners = [], []
         for (c, ci, cm, dis) in pending_spec:
-            sl = prop.spec_reqs(c, ci) if hasattr(prop, "spec_reqs") else []
+            sl = prop.spec_reqs(c, ci) if hasattr(prop, "spec_reqs") and not c.meta.get("corr_only") else []
             owners.append(len(sl))
             spec_lines.extend(sl)
         spec_replies = proto.run_model(spec_lines) if spec_lines else []
